@@ -262,35 +262,47 @@ func c06Scenarios(tier string) []*Scenario {
 	opts := tally.SanitizeOptions{NameCharacters: vc, KeyCharacters: vc, ValueCharacters: vc, ReplacementCharacter: '_'}
 	inputs := [][]string{{"a b", "long-dirty-string!"}, {"é€", "x.y.z"}, {"ok", "q?"}}
 	nth := tierInt(tier, 2, 3)
-	sc := &Scenario{Property: "C06", Name: fmt.Sprintf("S-pooled-buffer-%d-threads", nth)}
-	sc.Body = func(x *Run) {
-		s := tally.NewSanitizer(opts)
-		outs := make([][]string, nth)
-		var ths []*rt.Thread
-		for i := 0; i < nth; i++ {
-			i := i
-			ths = append(ths, rt.GoNamed(fmt.Sprintf("san%d", i), func() {
-				for _, in := range inputs[i] {
-					outs[i] = append(outs[i], s.Name(in), s.Key(in), s.Value(in))
-				}
-			}))
+	var out []*Scenario
+	for _, miss := range []bool{false, true} {
+		miss := miss
+		name := fmt.Sprintf("S-pooled-buffer-%d-threads", nth)
+		inputs := inputs
+		if miss {
+			// a Get may hand out a fresh buffer although the pool holds one (a data choice at every Get): one input per thread
+			name += "-pool-may-miss"
+			inputs = [][]string{{"long-dirty-string!"}, {"é€"}, {"q?"}}
 		}
-		for _, t := range ths {
-			t.Join()
-		}
-		for i := 0; i < nth; i++ {
-			k := 0
-			for _, in := range inputs[i] {
-				want := refSanitize(vc, '_', in)
-				for j := 0; j < 3; j++ {
-					if outs[i][k] != want {
-						x.failf("concurrent-sanitize-differs", "thread %d: sanitize(%q) = %q, sequential reference %q", i, in, outs[i][k], want)
+		sc := &Scenario{Property: "C06", Name: name, PoolMiss: miss}
+		sc.Body = func(x *Run) {
+			s := tally.NewSanitizer(opts)
+			outs := make([][]string, nth)
+			var ths []*rt.Thread
+			for i := 0; i < nth; i++ {
+				i := i
+				ths = append(ths, rt.GoNamed(fmt.Sprintf("san%d", i), func() {
+					for _, in := range inputs[i] {
+						outs[i] = append(outs[i], s.Name(in), s.Key(in), s.Value(in))
 					}
-					k++
+				}))
+			}
+			for _, t := range ths {
+				t.Join()
+			}
+			for i := 0; i < nth; i++ {
+				k := 0
+				for _, in := range inputs[i] {
+					want := refSanitize(vc, '_', in)
+					for j := 0; j < 3; j++ {
+						if outs[i][k] != want {
+							x.failf("concurrent-sanitize-differs", "thread %d: sanitize(%q) = %q, sequential reference %q", i, in, outs[i][k], want)
+						}
+						k++
+					}
 				}
 			}
 		}
+		sc.Check = func(x *Run, o *rt.Outcome) (string, string, string) { return "", "", "ok" }
+		out = append(out, sc)
 	}
-	sc.Check = func(x *Run, o *rt.Outcome) (string, string, string) { return "", "", "ok" }
-	return []*Scenario{sc}
+	return out
 }
